@@ -1,4 +1,92 @@
-(** C14 placeholder while the refinement proof is being written *)
-From GH Require Import Base.Prelude Model.Store Model.StoreSpec.
-Theorem C14_placeholder : True. Proof. exact I. Qed.
-Print Assumptions C14_placeholder.
+(** C14 — OnDelete handlers run once per removed header, before it becomes unreadable.
+
+    Setting as in Props/C04.v and Props/C08.v: [s := run c (st0 b) ops] is the state after ANY
+    history (flushed and unflushed headers, earlier partial and whole-store deletions, restarts);
+    [delete_range s (script_of fails) nh from to = (s', log, out)] is DeleteRange(from, to) with
+    [nh] registered handlers, handler [j] failing (error, or panic caught by the recover wrapper)
+    at height [n] iff [script_of fails j n <> HOk]; [log] is the list of handler invocations
+    [HCall handler height readable] in call order, where [readable] records whether
+    GetByHeight(height) returned that header at the moment of the call.
+    [count_call j n log] = number of calls of handler [j] for height [n]. *)
+From Coq Require Import NArith List Bool.
+From stdpp Require Import gmap.
+From GH Require Import Base.Prelude Model.Store Model.StoreSpec Oracle.StoreCase.
+From GH Require Import Proofs.StoreP Proofs.StoreMainP Proofs.StoreC04P Proofs.StoreC08P Proofs.StoreC14P.
+Import ListNotations.
+Open Scope N_scope.
+
+(** for every header a DeleteRange removes (readable before, not readable after) each
+    registered handler was called exactly once with that height, and returned nil *)
+Theorem C14_handlers_once_per_removed_header : forall c U, chain_hyps c U -> forall b ops, Forall (op_ok U) ops ->
+  forall from to nh fails s' log out,
+  let s := run c (st0 b) ops in
+  delete_range s (script_of fails) nh from to = (s', log, out) ->
+  forall n, get_by_height s n = Found (c n) -> (forall h, get_by_height s' n <> Found h) ->
+  forall j, (j < nh)%nat -> count_call j n log = 1%nat /\ script_of fails j n = HOk.
+Proof. exact @hist_handlers_once. Qed.
+
+(** every handler call was made while the header was still readable through GetByHeight
+    ([readable] recorded at call time), for a registered handler, a height of the range whose
+    header existed; and unless DeleteRange failed, that header is gone afterwards *)
+Theorem C14_called_while_readable : forall c U, chain_hyps c U -> forall b ops, Forall (op_ok U) ops ->
+  forall from to nh fails s' log out,
+  let s := run c (st0 b) ops in
+  delete_range s (script_of fails) nh from to = (s', log, out) ->
+  forall x, In x log ->
+  hc_readable x = true /\ (hc_handler x < nh)%nat /\ from <= hc_height x < to /\
+  get_by_height s (hc_height x) = Found (c (hc_height x)) /\
+  ((forall h, get_by_height s' (hc_height x) <> Found h) \/ out = Fail).
+Proof. exact @hist_calls_readable. Qed.
+
+(** if a handler returns an error or panics (an accepted range returning an error), the header
+    [k] it failed for is NOT removed and remains readable by height and hash; the handlers up
+    to the failing one [j] were called once for it, the later ones not at all; everything
+    before [k] had been removed *)
+Theorem C14_failure_keeps_header : forall c U, chain_hyps c U -> forall b ops, Forall (op_ok U) ops ->
+  forall from to nh fails s' log hd tl,
+  let s := run c (st0 b) ops in
+  headp s = Some hd -> tailp s = Some tl -> valid_shape (h_height tl) (h_height hd) from to ->
+  delete_range s (script_of fails) nh from to = (s', log, Fail) ->
+  exists k j, from <= k < to /\ (j < nh)%nat /\ script_of fails j k <> HOk /\
+    get_by_height s' k = Found (c k) /\ get s' (h_id (c k)) = Found (c k) /\
+    (forall i, count_call i k log = if (i <=? j)%nat then 1%nat else 0%nat) /\
+    (forall n, from <= n < k -> forall h, get_by_height s' n <> Found h).
+Proof. exact @hist_failure_keeps_header. Qed.
+
+(** the error is returned, never a crash: DeleteRange does not panic in ANY state with ANY handlers *)
+Theorem C14_never_panics : forall s script nh from to,
+  snd (delete_range s script nh from to) <> Panic.
+Proof. exact delete_never_panics. Qed.
+
+(** a retry of a tail-side deletion (from the new Tail [k]) invokes every handler for [k] again *)
+Theorem C14_retry_calls_again : forall c U, chain_hyps c U -> forall b ops, Forall (op_ok U) ops ->
+  forall from to nh fails s1 log1 hd tl,
+  let s := run c (st0 b) ops in
+  headp s = Some hd -> tailp s = Some tl -> from = h_height tl ->
+  valid_shape (h_height tl) (h_height hd) from to ->
+  delete_range s (script_of fails) nh from to = (s1, log1, Fail) ->
+  exists k, from <= k < to /\ tailp s1 = Some (c k) /\
+    forall nh' fails', no_fail_in fails' k to ->
+    exists s2 log2, delete_range s1 (script_of fails') nh' k to = (s2, log2, Ok) /\
+      forall j, (j < nh')%nat -> count_call j k log2 = 1%nat.
+Proof. exact @hist_retry_calls_again. Qed.
+
+(** non-vacuity: two handlers; whole-store deletion over flushed (1, 2) and pending (3)
+    headers; handler 1 panics at height 2 *)
+Example C14_history :
+  let c := simple_chain in
+  let s := run c (st0 2) [IAppend [1; 2]; IAppend [3]] in
+  let '(s1, lg1, out1) := delete_range s (script_of [(1%nat, 2, true)]) 2 1 4 in
+  out1 = Fail /\
+  lg1 = [HCall 0 1 true; HCall 1 1 true; HCall 0 2 true; HCall 1 2 true] /\
+  get_by_height s1 2 = Found (c 2) /\ get_by_height s1 1 = NotFound /\
+  let '(s2, lg2, out2) := delete_range s1 (script_of []) 2 2 4 in
+  out2 = Ok /\ lg2 = [HCall 0 2 true; HCall 1 2 true; HCall 0 3 true; HCall 1 3 true] /\
+  headp s2 = None.
+Proof. vm_compute. repeat split. Qed.
+
+Print Assumptions C14_handlers_once_per_removed_header.
+Print Assumptions C14_called_while_readable.
+Print Assumptions C14_failure_keeps_header.
+Print Assumptions C14_never_panics.
+Print Assumptions C14_retry_calls_again.
